@@ -68,6 +68,8 @@ ASSUMPTIONS = [
     "exercised by the oracle-only stream on random models at IR versions 10-12",
     "round trips below IR version 11 (C19_roundtrip_legacy: closed lists, unique names) count as in-alphabet: the "
     "driver evaluates the theorem's hypotheses for every such round trip and reports them through the same `pre` flag",
+    "function inputs keep non-empty names (FunctionProto.input is a list of names and their shapes travel in value_info by "
+    "name; an unnamed function input loses its shape on reload, which the model does not represent)",
     "C19_inline_remap: only the inliner's instantiation of one body node without subgraphs is modelled "
     "(Cloner.clone_node with a None-valued value map, driver command device.inst, compared with the real "
     "_cloner.Cloner on random nodes / maps; hypothesis 'specs target inputs/outputs' evaluated per case, key inst_hyp); "
@@ -178,18 +180,36 @@ class Real:
     def all_nodes(model):
         """graph.all_nodes() followed by every function's all_nodes() (what the checker, the cascade and the
         deserializer's resolution pass enumerate)"""
-        ns = list(model.graph.all_nodes())
+        # an independent recursive walk (pre-order, the order of serialization): it does not go through
+        # the library's traversal helpers, so a library walk that skips nodes cannot hide them from the oracle
+        ns = Real.walk_nodes(model.graph)
         for f in model.functions.values():
-            ns += list(f.all_nodes())
+            ns += Real.walk_nodes(f.graph)
         return ns
+
+    @staticmethod
+    def walk_nodes(graph):
+        out = []
+        for n in graph:
+            out.append(n)
+            for sg in Real.subgraphs_of(n):
+                out += Real.walk_nodes(sg)
+        return out
+
+    @staticmethod
+    def walk_graphs(graph):
+        out = [graph]
+        for n in graph:
+            for sg in Real.subgraphs_of(n):
+                out += Real.walk_graphs(sg)
+        return out
 
     @staticmethod
     def model_graphs(model):
         """Model.graphs() followed by every function's body graph and its subgraphs"""
-        gs = list(model.graphs())
+        gs = Real.walk_graphs(model.graph)
         for f in model.functions.values():
-            gs.append(f.graph)
-            gs += list(f.subgraphs())
+            gs += Real.walk_graphs(f.graph)
         return gs
 
     @staticmethod
@@ -794,6 +814,43 @@ class Gen:
         r = self.rng
         # IR version 10: annotations are accepted by the API but not serialized (C19_roundtrip_legacy)
         ops = [{"op": "newModel", "ir": r.choice([11, 11, 11, 11, 12, 13, 10] if not self.strict else [11, 11, 11, 12, 13, 10])}]
+        if r.random() < 0.3:
+            ops += self.nested_function_prelude()
+        return ops
+
+    def nested_function_prelude(self):
+        """A model-local function whose body node owns a subgraph (and, half of the time, a subgraph inside that
+        one) with ANNOTATED nodes inside: the nodes `func.all_nodes()` reaches but iterating the function does
+        not.  Ids are those of a fresh world: values x=0 o=1 fx=2 fo=3 t=4 u=5, graphs main=0 body=1 sub=2
+        subsub=3, nodes 0..3, configurations 0..1."""
+        r = self.rng
+
+        def shard(n, v, c, shape, stage=None):
+            rank = None if shape is None else len(shape)
+            axis = r.choice([-1, 0, 1]) if rank is None else (r.randrange(-rank, rank) if rank else 0)
+            return {"op": "shard", "n": n, "v": v, "c": c, "axis": axis, "k": r.choice([1, 2, 4]),
+                    "devs": [r.randrange(2) for _ in range(r.choice([0, 1]))], "stage": stage}
+
+        sx, so, sfx, sfo, st, su = (self.shape() for _ in range(6))
+        ops = [
+            {"op": "newInput", "g": 0, "name": self.name("x"), "shape": sx},
+            {"op": "newNode", "g": 0, "ins": [0], "outs": [{"name": self.name("o"), "shape": so}]},
+            {"op": "addCfg", "m": 0, "name": self.name("cfg"), "num": 2, "names": []},
+            {"op": "addCfg", "m": 0, "name": self.name("cfg"), "num": 3, "names": []},
+            {"op": "newFunction", "m": 0},
+            {"op": "newInput", "g": 1, "name": self.name("x"), "shape": sfx},
+            {"op": "newNode", "g": 1, "ins": [2], "outs": [{"name": self.name("o"), "shape": sfo}]},
+            {"op": "newSubgraph", "n": 1, "graphs": r.random() < 0.3},
+            {"op": "newNode", "g": 2, "ins": [2, 3][: r.choice([1, 2])], "outs": [{"name": self.name("o"), "shape": st}]},
+            shard(2, 4, 0, st, r.choice([None, 1])),
+            {"op": "setStage", "n": 2, "c": 1, "stage": r.choice([0, 2])},
+        ]
+        if r.random() < 0.5:
+            ops += [
+                {"op": "newSubgraph", "n": 2, "graphs": False},
+                {"op": "newNode", "g": 3, "ins": [2], "outs": [{"name": self.name("o"), "shape": su}]},
+                shard(3, 2, 1, sfx), shard(3, 5, 0, su),
+            ]
         return ops
 
     def gen_op(self):
@@ -964,7 +1021,11 @@ class Gen:
             self.tainted = True
             v = self.pick_value()
             other = real.values[self.pick_value()].name or ""
-            return {"op": "rename", "v": v, "name": r.choice(["", other, other])}
+            new = r.choice(["", other, other])
+            fin = {id(x) for m_ in real.models for f_ in m_.functions.values() for x in f_.graph.inputs}
+            if not new and id(real.values[v]) in fin:
+                new = self.name("r")  # function inputs stay named (FunctionProto.input is a list of names; ASSUMPTIONS)
+            return {"op": "rename", "v": v, "name": new}
         if kind == "addCfg":
             names = r.choice([[], [], ["CPU", "GPU"], ["a", "b", "c"]])
             num = r.choice([None, len(names)]) if names else r.choice([1, 2, 3, 4])
@@ -1143,8 +1204,13 @@ def run_history(seed: int, strict: bool, length: int, part: Part, fixed_ops=None
         ops.append(op)
         steps.append({"res": res, "out": out, "state": after, "facts": real_facts(real)})
         part.count(f"op={k}:{res}")
-        if any(n_.device_configurations for m_ in real.models for f_ in m_.functions.values() for n_ in f_.all_nodes()):
+        if any(n_.device_configurations for m_ in real.models for f_ in m_.functions.values() for n_ in Real.walk_nodes(f_.graph)):
             part.count("steps_with_annotated_function_node")
+        if any(n_.device_configurations for m_ in real.models for f_ in m_.functions.values()
+               for n0_ in f_.graph for sg_ in Real.subgraphs_of(n0_) for n_ in Real.walk_nodes(sg_)):
+            part.count("steps_with_annotated_node_nested_in_function")
+            if k in ("roundTrip", "removeCfg", "clone", "cloneFunc") and res == "ok":
+                part.count(f"{k}_with_annotated_node_nested_in_function")
         if k == "cloneSub" and res == "ok":
             own = {id(v) for n_ in real.graphs[-1].all_nodes() for v in n_.outputs} | {id(v) for v in real.graphs[-1].inputs}
             if any(id(sp.value) not in own for n_ in real.graphs[-1].all_nodes() for nc in n_.device_configurations
@@ -1421,6 +1487,13 @@ def _rich_model(ir, r):
         fpool, fnodes = list(fins), []
         for _ in range(r.choice([1, 2, 3])):
             nd = node("FOp", [r.choice(fpool) for _ in range(r.choice([1, 2]))])
+            if r.random() < 0.5:
+                # a control-flow-like body node: a subgraph (sometimes two levels) whose nodes use function values
+                inner = node("FSOp", [r.choice(fpool) for _ in range(r.choice([1, 2]))])
+                if r.random() < 0.4:
+                    deep = node("FSSOp", [r.choice(fpool + list(inner.outputs))])
+                    inner.attributes.add(ir.AttrGraph("deep", ir.Graph([], [deep.outputs[0]], nodes=[deep], name=f"fdeep{cnt[0]}")))
+                nd.attributes.add(ir.AttrGraph("body", ir.Graph([], [inner.outputs[0]], nodes=[inner], name=f"fsub{cnt[0]}")))
             fnodes.append(nd)
             fpool += list(nd.outputs)
         fg = ir.Graph(fins, [fnodes[-1].outputs[0]], nodes=fnodes, opset_imports={"": 20}, name=f"Fb{fi}")
@@ -1456,10 +1529,7 @@ def _rich_model(ir, r):
 
 
 def _rich_nodes(m):
-    ns = list(m.graph.all_nodes())
-    for f in m.functions.values():
-        ns += list(f.all_nodes())
-    return ns
+    return Real.all_nodes(m)  # independent recursive walk, not the library's traversal
 
 
 def _rich_summary(m):
